@@ -382,7 +382,7 @@ func cmdCheck(args []string) {
 			cases++
 			targets := append([]string{pkgPath}, run.ExtraPkgs...)
 			res, err := prog.Explore(sym.RunOpts{PkgPath: pkgPath, Entry: run.Entry, Args: []int{c}, Workers: *workers,
-				MaxPaths: run.MaxPaths, StepBudget: run.StepBudget, TargetPkgs: targets, Known: active})
+				MaxPaths: run.MaxPaths, StepBudget: run.StepBudget, TargetPkgs: targets, Known: active, StopAfterViol: 40})
 			if err != nil {
 				fail2(fmt.Sprintf("%s case %d: %v", run.Entry, c, err))
 				continue
